@@ -140,9 +140,105 @@ fn named_and_word_compete(case: &mut Case) {
     }
 }
 
+/// Alternatives that share named items: `construct!([{-v}, {-v, --name N}])` in either declaration
+/// order, with one or two shared switches and an argument or a required flag as the extra member.
+/// Every order of the occurrences on the line gives the same outcome.
+fn alternatives_share_a_switch(case: &mut Case) {
+    let mut rng = case.rng(5);
+    let mk = |id: Id, names: Names, leaf: Leaf| {
+        Spec::Item(Item {
+            id,
+            names,
+            help: None,
+            leaf,
+        })
+    };
+    let shared = if rng.chance(1, 2) { 1 } else { 2 };
+    let letters = ['v', 'q'];
+    let mut simple = Vec::new();
+    let mut full = Vec::new();
+    for (k, c) in letters.iter().take(shared).enumerate() {
+        simple.push(mk(1 + k as Id, Names::short(*c), Leaf::Switch));
+        full.push(mk(11 + k as Id, Names::short(*c), Leaf::Switch));
+    }
+    let extra_is_arg = rng.chance(2, 3);
+    let mut occurrences: Vec<Vec<Vec<u8>>> = Vec::new();
+    if extra_is_arg {
+        full.push(mk(
+            20,
+            Names::long("name"),
+            Leaf::Arg {
+                ty: Ty::Str,
+                metavar: "NAME".into(),
+                adjacent: false,
+            },
+        ));
+        if rng.chance(1, 2) {
+            occurrences.push(vec![b"--name=bob".to_vec()]);
+        } else {
+            occurrences.push(vec![b"--name".to_vec(), b"bob".to_vec()]);
+        }
+    } else {
+        full.push(mk(20, Names::long("full"), Leaf::ReqFlag));
+        occurrences.push(vec![b"--full".to_vec()]);
+    }
+    if rng.chance(1, 2) {
+        full.rotate_right(1);
+    }
+    for c in letters.iter().take(shared) {
+        if shared == 1 || rng.chance(3, 4) {
+            occurrences.push(vec![format!("-{}", c).into_bytes()]);
+        }
+    }
+    let branches = if rng.chance(1, 2) {
+        vec![Spec::Seq(simple), Spec::Seq(full)]
+    } else {
+        vec![Spec::Seq(full), Spec::Seq(simple)]
+    };
+    let b = Bench::new(case, OptSpec::plain(Spec::Alt(branches)));
+    // all orders of the occurrences (at most three of them)
+    let n = occurrences.len();
+    let mut orders: Vec<Vec<usize>> = vec![(0..n).collect()];
+    let mut ix: Vec<usize> = (0..n).collect();
+    for _ in 0..12 {
+        rng.shuffle(&mut ix);
+        if !orders.contains(&ix) {
+            orders.push(ix.clone());
+        }
+    }
+    let line = |o: &[usize]| -> Vec<Vec<u8>> {
+        o.iter().flat_map(|&i| occurrences[i].iter().cloned()).collect()
+    };
+    let base = line(&orders[0]);
+    let (o_base, _) = b.run(case, &base, "alternatives-share-a-switch");
+    let abnormal = |o: &Outcome| matches!(o, Outcome::Panic(_) | Outcome::FuelExhausted);
+    for o in &orders[1..] {
+        let moved = line(o);
+        let (o_moved, _) = b.run(case, &moved, "alternatives-share-a-switch:moved");
+        case.rep.count("pairs");
+        if !same(&o_base, &o_moved) && !abnormal(&o_base) && !abnormal(&o_moved) {
+            case.rep.violation(
+                "order-matters:alternatives-share-a-switch",
+                "permutation",
+                case.index,
+                b.detail(
+                    &moved,
+                    "alternatives-share-a-switch:moved",
+                    &format!("the outcome of {}: {}", show_argv(&base).render(), o_base.show()),
+                    &o_moved,
+                ),
+            );
+        }
+    }
+}
+
 pub fn run_case(case: &mut Case) {
     if case.index % 16 == 9 {
         named_and_word_compete(case);
+        return;
+    }
+    if case.index % 16 == 3 {
+        alternatives_share_a_switch(case);
         return;
     }
     let mut rng = case.rng(0);
